@@ -109,7 +109,10 @@ type Matcher struct {
 	T           string          `json:"t"`
 	Ret         json.RawMessage `json:"ret"`
 	Err         string          `json:"err"`
+	Shared      string          `json:"shared"` // non-empty: ONE matcher object per key, reused across calls
 }
+
+var sharedAny = map[string]any{}
 
 // ---------------------------------------------------------------- trace
 
@@ -740,12 +743,21 @@ func jsonMatchers(ms []*Matcher) []match.JSONMatcher {
 	for _, m := range ms {
 		switch m.M {
 		case "any":
+			if m.Shared != "" {
+				if x, ok := sharedAny[m.Shared]; ok {
+					out = append(out, x.(match.JSONMatcher))
+					continue
+				}
+			}
 			a := match.Any(m.Paths...)
 			if m.HasPH {
 				a = a.Placeholder(rawToAny(m.Placeholder))
 			}
 			if m.EOMP != nil {
 				a = a.ErrOnMissingPath(*m.EOMP)
+			}
+			if m.Shared != "" {
+				sharedAny[m.Shared] = a
 			}
 			out = append(out, a)
 		case "type":
